@@ -43,13 +43,14 @@ def main(argv=None):
     ap.add_argument("--tier", default=os.environ.get("VERIF_TIER", "quick"), choices=["quick", "thorough"])
     ap.add_argument("--repo", default=None)
     ap.add_argument("--replay", default=None, help="print a stored replay record and re-run the check")
+    ap.add_argument("--no-evidence", action="store_true", help="do not (re)write evidence/replay files (used for scratch trees)")
     a = ap.parse_args(argv)
     if a.replay:
         try:
             print(open(a.replay).read())
         except OSError as e:
             print(f"cannot read replay file: {e}")
-    code, _ = run_property(a.prop.upper(), a.tier, a.repo)
+    code, _ = run_property(a.prop.upper(), a.tier, a.repo, write=not a.no_evidence)
     return code
 
 
